@@ -78,6 +78,19 @@ Section Loop.
         * destruct P7 as [P7|P7]; [left; exact P7 | right; cbn [map fst]; f_equal; exact P7].
   Qed.
 
+  (* every selected pair carries the [mk] value of its utxo (no exactness needed) *)
+  Lemma select_mk_ok : forall us target acc sel tot,
+      select sat_of mk us target acc = Ok (sel, tot) -> Forall (fun ut => mk (fst ut) = Ok (snd ut)) sel.
+  Proof.
+    induction us as [|u rest IH]; intros target acc sel tot H.
+    - cbn [select] in H. injection H as <- <-. constructor.
+    - cbn [select] in H. apply bind_ok in H as (s & _ & H). apply bind_ok in H as (t & Emk & H).
+      destruct (acc + s >=? target).
+      + injection H as <- <-. constructor; [exact Emk | constructor].
+      + apply bind_ok in H as ([sel' tot'] & Erec & H). cbn beta iota in H. injection H as <- <-.
+        constructor; [exact Emk | eapply IH; exact Erec].
+  Qed.
+
   (* the loop never fails for another reason than the conversion or [mk] *)
   Lemma select_total us target acc :
     (forall u, In u us -> exists s, sat_of u = Ok s) -> (forall u, In u us -> exists t, mk u = Ok t) ->
